@@ -2,7 +2,7 @@
    sequences and nothing else).  Only statements, each closed by [exact]. *)
 From Coq Require Import NArith List Bool.
 From AV Require Import Generated.Table Spec.Utf8 Spec.Vt Spec.Strip Model.Base Model.Parser Model.Strip
-  Proofs.TableFacts Proofs.StripMachine Proofs.StripSim Proofs.StripStr Proofs.StripPieces.
+  Proofs.TableFacts Proofs.StripMachine Proofs.StripSim Proofs.StripStr Proofs.StripPieces Proofs.StripVisible.
 Import ListNotations.
 Local Open Scope N_scope.
 
@@ -17,6 +17,22 @@ Theorem c01_strip_str_is_spec :
   forall input, bytes_ok input -> valid_utf8 input = true ->
   strip_str_model input = Some (spec_strip input).
 Proof. exact strip_str_is_spec. Qed.
+
+(* the two specifications agree: on valid UTF-8 the bytes Spec/Strip keeps are exactly
+   the UTF-8 encoding of the text the VT model of Spec/Vt shows -- every character it
+   prints except DEL and every TAB / LF / FF / CR it executes ([visible_of]) *)
+Theorem c01_strip_visible_text :
+  forall input, Forall (fun b => b < 256) input -> valid_utf8 input = true ->
+  spec_strip input = flat_map utf8_encode (flat_map visible_of (spec_events input)).
+Proof. exact strip_visible_text. Qed.
+
+(* used above: every single well-formed character of Table 3-7 ([one_char]: a 7-bit
+   byte, or a lead byte and exactly the continuation bytes the DFA accepts) decodes to
+   a scalar value whose encoding is the same bytes *)
+Theorem c01_utf8_encode_decode :
+  forall bs, one_char bs = true ->
+  utf8_encode (utf8_decode bs) = bs /\ is_scalar (utf8_decode bs) = true.
+Proof. exact utf8_encode_decode. Qed.
 
 (* the output never contains ESC, DEL or a non-whitespace C0 control, whatever the
    input (valid UTF-8 or not) *)
